@@ -11,6 +11,7 @@ import (
 	"errors"
 	"fmt"
 	"math/big"
+	"sync"
 
 	"github.com/cloudflare/circl/oprf"
 	"github.com/cloudflare/pat-go/ecdsa"
@@ -110,7 +111,11 @@ func must(err error) {
 
 // ---- type 1 / type 5 ----
 
-func t1Scenario(withVerify bool) func() instance {
+func t1Scenario(withVerify bool) func() instance { return t1ScenarioH(withVerify, false) }
+
+// t1ScenarioH with history: the shared issuer has already turned away a malformed request and
+// served an honest one (sequentially, by the controller) before the concurrent calls start.
+func t1ScenarioH(withVerify, history bool) func() instance {
 	return func() instance {
 		kb := px.OPRFKeyBytes(oprf.SuiteP384, 0)
 		ref := px.NewW1FromBytes(kb) // reference world (its own key object)
@@ -129,6 +134,20 @@ func t1Scenario(withVerify bool) func() instance {
 		must(err)
 		// the shared object: a FRESH issuer over a fresh key object built from bytes
 		iss := type1.NewBasicPrivateIssuer(px.OPRFKeyFromBytes(oprf.SuiteP384, kb))
+		if history {
+			bad := &type1.BasicPrivateTokenRequest{TokenKeyID: ref.KeyID[31], BlindedReq: append([]byte{0x02}, bytes.Repeat([]byte{0xff}, 48)...)}
+			if _, err := iss.Evaluate(bad); err == nil {
+				panic("malformed element accepted")
+			}
+			qh := new(type1.BasicPrivateTokenRequest)
+			qh.Unmarshal(append([]byte{}, st0.Request().Marshal()...))
+			if _, err := iss.Evaluate(qh); err != nil {
+				panic(err)
+			}
+			if _, err := iss.Evaluate(bad); err == nil {
+				panic("malformed element accepted")
+			}
+		}
 		var r0, r1, kid []byte
 		var e0, e1, ev error
 		var pk *oprf.PublicKey
@@ -182,7 +201,9 @@ func t1Scenario(withVerify bool) func() instance {
 	}
 }
 
-func t5Scenario(withVerify bool) func() instance {
+func t5Scenario(withVerify bool) func() instance { return t5ScenarioH(withVerify, false) }
+
+func t5ScenarioH(withVerify, history bool) func() instance {
 	return func() instance {
 		kb := px.OPRFKeyBytes(oprf.SuiteRistretto255, 0)
 		ref := px.NewW5FromBytes(kb)
@@ -201,6 +222,20 @@ func t5Scenario(withVerify bool) func() instance {
 		tok, err := type5.UnmarshalBatchedPrivateToken(refOut.Tokens[0])
 		must(err)
 		iss := type5.NewBatchedPrivateIssuer(px.OPRFKeyFromBytes(oprf.SuiteRistretto255, kb))
+		if history {
+			bad := &type5.BatchedPrivateTokenRequest{TokenKeyID: ref.KeyID[31], BlindedReq: [][]byte{bytes.Repeat([]byte{0xff}, 32)}}
+			if _, err := iss.Evaluate(bad); err == nil {
+				panic("malformed element accepted")
+			}
+			qh := new(type5.BatchedPrivateTokenRequest)
+			qh.Unmarshal(append([]byte{}, st0.Request().Marshal()...))
+			if _, err := iss.Evaluate(qh); err != nil {
+				panic(err)
+			}
+			if _, err := iss.Evaluate(bad); err == nil {
+				panic("malformed element accepted")
+			}
+		}
 		var r0, r1, kid []byte
 		var e0, e1, ev error
 		var pk *oprf.PublicKey
@@ -260,7 +295,11 @@ func t5Scenario(withVerify bool) func() instance {
 
 // ---- type 2 ----
 
-func t2Scenario() instance {
+func t2Scenario() instance { return t2ScenarioH(false) }
+
+func t2ScenarioHist() instance { return t2ScenarioH(true) }
+
+func t2ScenarioH(history bool) instance {
 	ref := px.NewW2(0)
 	chal := fill("chal", 32)
 	st0, err := ref.Create(chal, fill("n0", 32), nil, nil)
@@ -269,6 +308,20 @@ func t2Scenario() instance {
 	must(err)
 	w0, w1 := append([]byte{}, st0.Request().Marshal()...), append([]byte{}, st1.Request().Marshal()...)
 	iss := type2.NewBasicPublicIssuer(px.FreshRSA(0))
+	if history {
+		bad := &type2.BasicPublicTokenRequest{TokenKeyID: ref.KeyID[31], BlindedReq: bytes.Repeat([]byte{0xff}, 256)}
+		if _, err := iss.Evaluate(bad); err == nil {
+			panic("blinded message above the modulus accepted")
+		}
+		qh := new(type2.BasicPublicTokenRequest)
+		qh.Unmarshal(append([]byte{}, st0.Request().Marshal()...))
+		if _, err := iss.Evaluate(qh); err != nil {
+			panic(err)
+		}
+		if _, err := iss.Evaluate(bad); err == nil {
+			panic("blinded message above the modulus accepted")
+		}
+	}
 	var r0, r1, kid []byte
 	var e0, e1 error
 	in := instance{}
@@ -358,6 +411,70 @@ func t3Scenario() instance {
 		}
 		if !bytes.Equal(kid2, refKid) {
 			return "", fmt.Errorf("concurrent TokenKeyID differs from the sequential one")
+		}
+		return "ok", nil
+	}
+	return in
+}
+
+// lockedCache is a goroutine-safe ClientStateCache (the cache is the operator's; the attester's own
+// code is what is explored).
+type lockedCache struct {
+	mu sync.Mutex
+	m  map[string]*type3.ClientState
+}
+
+func (c *lockedCache) Get(id string) (*type3.ClientState, bool) {
+	c.mu.Lock()
+	defer c.mu.Unlock()
+	s, ok := c.m[id]
+	return s, ok
+}
+func (c *lockedCache) Put(id string, s *type3.ClientState) {
+	c.mu.Lock()
+	defer c.mu.Unlock()
+	c.m[id] = s
+}
+
+// attesterScenario: one attester verifies, at once, an honest request, a forgery of it (one
+// ciphertext bit flipped, honest signature kept) and an honest request of another client.
+func attesterScenario() instance {
+	iss := type3.NewRateLimitedIssuer(px.RSAKeys()[1])
+	kid := iss.TokenKeyID()
+	nk := iss.NameKey()
+	type trip struct {
+		req               type3.RateLimitedTokenRequest
+		blind, clientKey []byte
+	}
+	mk := func(i int) trip {
+		secret := fill(fmt.Sprintf("secret%d", i), 48)
+		blind := fill(fmt.Sprintf("blind%d", i), 48)
+		c := type3.NewRateLimitedClientFromSecret(secret)
+		st, err := c.CreateTokenRequest(fill("chal", 32), fill(fmt.Sprintf("n%d", i), 32), blind, kid, &px.RSAKeys()[1].PublicKey, originName, nk)
+		must(err)
+		q := new(type3.RateLimitedTokenRequest)
+		if !q.Unmarshal(append([]byte{}, st.Request().Marshal()...)) {
+			panic("request does not decode")
+		}
+		return trip{*q, blind, px.ClientPubKeyBytes(secret)}
+	}
+	a, b := mk(0), mk(1)
+	forged := mk(0)
+	forged.req.EncryptedTokenRequest[len(forged.req.EncryptedTokenRequest)/2] ^= 0x10
+	att := type3.NewRateLimitedAttester(&lockedCache{m: map[string]*type3.ClientState{}})
+	var e0, e1, e2 error
+	in := instance{}
+	in.bodies = []func(){
+		func() { e0 = att.VerifyRequest(a.req, a.blind, a.clientKey, make([]byte, 32)) },
+		func() { e1 = att.VerifyRequest(forged.req, forged.blind, forged.clientKey, make([]byte, 32)) },
+		func() { e2 = att.VerifyRequest(b.req, b.blind, b.clientKey, make([]byte, 32)) },
+	}
+	in.check = func() (string, error) {
+		if e0 != nil || e2 != nil {
+			return "", fmt.Errorf("concurrent VerifyRequest rejected an honest request: %v %v", e0, e2)
+		}
+		if e1 == nil {
+			return "", fmt.Errorf("concurrent VerifyRequest accepted a request whose ciphertext was altered after signing")
 		}
 		return "ok", nil
 	}
@@ -528,6 +645,37 @@ func ecdsaScenario(variant int) func() instance {
 				func() { r1, s1, e1 = ecdsa.BlindKeySign(threadReader{}, sk, bk, h1[:]) },
 				func() { vok = ecdsa.Verify(&sk.PublicKey, h0[:], pr, ps) },
 			}
+		case 2:
+			// two blinding keys and two contexts in use at once on one signing key
+			bk2, err := ecdsa.CreateKey(curve, fill("bk2", 48))
+			must(err)
+			refBk2, _ := ecdsa.CreateKey(curve, fill("bk2", 48))
+			ctxA, ctxB := []byte("context A"), []byte("context B, longer")
+			wantA, err := ecdsa.BlindPublicKeyWithContext(curve, &refSk.PublicKey, refBk, ctxA)
+			must(err)
+			wantB, err := ecdsa.BlindPublicKeyWithContext(curve, &refSk.PublicKey, refBk2, ctxB)
+			must(err)
+			var gotA, gotB *ecdsa.PublicKey
+			var eA, eB error
+			in.bodies = []func(){
+				func() { gotA, eA = ecdsa.BlindPublicKeyWithContext(curve, &sk.PublicKey, bk, ctxA) },
+				func() { gotB, eB = ecdsa.BlindPublicKeyWithContext(curve, &sk.PublicKey, bk2, ctxB) },
+				func() { r1, s1, e1 = ecdsa.BlindKeySignWithContext(threadReader{}, sk, bk, h1[:], ctxA) },
+			}
+			in.check = func() (string, error) {
+				std := func(p *ecdsa.PublicKey) *stdecdsa.PublicKey { return &stdecdsa.PublicKey{Curve: curve, X: p.X, Y: p.Y} }
+				if eA != nil || gotA.X.Cmp(wantA.X) != 0 || gotA.Y.Cmp(wantA.Y) != 0 {
+					return "", fmt.Errorf("concurrent BlindPublicKeyWithContext (key 1, context A) differs from the sequential result (%v)", eA)
+				}
+				if eB != nil || gotB.X.Cmp(wantB.X) != 0 || gotB.Y.Cmp(wantB.Y) != 0 {
+					return "", fmt.Errorf("concurrent BlindPublicKeyWithContext (key 2, context B) differs from the sequential result (%v)", eB)
+				}
+				if e1 != nil || !stdecdsa.Verify(std(wantA), h1[:], r1, s1) {
+					return "", fmt.Errorf("concurrent BlindKeySignWithContext produced a signature that does not verify under the key blinded with the same key and context (%v)", e1)
+				}
+				return "ok", nil
+			}
+			return in
 		default:
 			in.bodies = []func(){
 				func() { bp, e3 = ecdsa.BlindPublicKey(curve, &sk.PublicKey, bk) },
@@ -888,4 +1036,9 @@ var scenarios = []scenario{
 	{"ed25519-verify-verify-sign", ed25519Scenario(2)},
 	{"ed25519-unblind-unblind-blindpublickey", ed25519Scenario(3)},
 	{"batch-two-issuers-per-type", batchScenario2},
+	{"type1-evaluate-evaluate-tokenkeyid-on-an-issuer-with-a-history", t1ScenarioH(false, true)},
+	{"type5-evaluate-evaluate-tokenkeyid-on-an-issuer-with-a-history", t5ScenarioH(false, true)},
+	{"type2-evaluate-evaluate-tokenkeyid-on-an-issuer-with-a-history", t2ScenarioHist},
+	{"ecdsa-two-blinding-keys-two-contexts", ecdsaScenario(2)},
+	{"type3-attester-verifyrequest-honest-forged-honest", attesterScenario},
 }
